@@ -11,6 +11,7 @@ AST (JSON, consumed by spec/WithLang.tla and by the runner):
 import random
 
 P = {"k": "pass"}
+FAT = {"k": "pass", "fat": True}
 S = {"k": "susp"}
 
 
@@ -174,6 +175,12 @@ def family_body_endings():
                 out.append([T([W(0, [W(0, e, a2), S], a1)], final=[P])])
         out.append([W(0, [S] + e, True)])
         out.append([W(0, e, False), S])
+    # long bodies: the with body (and what lies between the with and its exit sequences) exceeds 255 code units
+    for a1 in (False, True):
+        out.append([W(0, [FAT, S, If([K("ret_k")]), FAT], a1), S])
+        out.append([For([W(0, [S, FAT, If([K("continue")], [FAT]), S], a1)])])
+        out.append([T([W(0, [W(0, [FAT, S], not a1), FAT], a1)], final=[S])])
+        out.append([W(0, [FAT, FAT, S], a1), FAT, W(0, [S], a1)])
     # match statements (3.10+; rendered as nested ifs on 3.9) as body endings, and managers that raise in enter / exit
     for a1 in (False, True):
         for a2 in (False, True):
@@ -429,6 +436,10 @@ def render(prog, carrier, running=False, first_line=1, py=(3, 12)):
         k = s["k"]
         if k == "pass":
             emit(ind, "env.probe()" if running else "env.nop()")
+            if s.get("fat"):
+                # a long stretch of code: jump arguments and exception-table offsets beyond it need EXTENDED_ARG / two-byte varints
+                for _ in range(60):
+                    emit(ind, "env.nop(kzero, kname)")
         elif k == "susp":
             susp(ind)
         elif k == "ret_k":
